@@ -5,6 +5,7 @@ CONSTANTS
   DEV_NoReindexOnNetworkTR = FALSE
   DEV_NoInvalidateCycle = FALSE
   DEV_MergeRebuildOnlyIfAll = FALSE
+  DEV_SetterSkipsSameObject = FALSE
 VIEW View
 INVARIANT InvFresh
 PROPERTY PropHistory
